@@ -282,11 +282,19 @@ def gen_powers(tier, rng):
         k = rng.choice([2, 2, 3, 4, 5])
         yield {"a": [rng.choice([rng.randrange(0, 700 // k), rng.randrange(0, ACCEPT // k), rng.randrange(ACCEPT)]) for _ in range(D)],
                "k": k, "c": rng.choice([1, -1, 2])}
+    # a*k at or just beyond 2**32: 32-bit exponent arithmetic would wrap back into the accepted range
+    for a, k in [(1048576, 4096), (65537, 65536), (100000, 42950), (65536, 65536), (2 ** 20, 2 ** 12 + 1)]:
+        yield {"a": [a], "k": k, "c": 1}
+    for _ in range(count(tier, 10, 100)):
+        a = rng.randrange(2 ** 12, 10 ** 6)
+        k = -(-2 ** 32 // a) + rng.randrange(0, 3)
+        yield {"a": [a] if rng.random() < 0.7 else [a, rng.choice([0, 1])], "k": k, "c": 1}
 
 
 @check("C20", "power.monomial_powers", gen_powers, functions=("numpoly.power", "numpoly.multiply"),
        note="bounded: q0**k for 12 boundary k and every 9th k < 400 (quick: one random k); (c*q**a)**k for k in 2..5 with a*k spread over "
-            "< 700, < 55000 and beyond; exact c**k*q**(a*k); exception accepted only when some a_i*k >= 55000")
+            "< 700, < 55000 and beyond, and 15 (105) pairs with a*k at or just above 2**32; exact c**k*q**(a*k); exception accepted only when "
+            "some a_i*k >= 55000")
 def powers(inp):
     install_poison()
     a, k, c = inp["a"], inp["k"], inp["c"]
@@ -458,6 +466,10 @@ def gen_text(tier, rng):
     for e in list(range(69, 197)) + [1, 2, 68, 197, 198, 255, 256, 300, 1000, 2000, ACCEPT]:
         for via in (VIAS if tier == "thorough" else ["bytesio", rng.choice(["stringio", "text_file"]), rng.choice(["path", "binary_file", "pathlib"])]):
             yield {"exponents": [[e]], "shape": rng.choice([[], [1], [3], [2, 2]]), "via": via}
+        # the same file written and read with an explicit (consistent) encoding
+        for enc in (["latin1", "utf-8", "ascii", "utf-16"] if tier == "thorough" else [rng.choice(["latin1", "latin1", "utf-8", "ascii", "utf-16"])]):
+            yield {"exponents": [[e]] if rng.random() < 0.5 else [[0], [e]], "shape": rng.choice([[], [1], [3]]), "via": rng.choice(["path", "pathlib"]),
+                   "encoding": enc}
     # exponent rows whose latin-1 key bytes form one valid UTF-8 sequence (lead byte, continuation bytes)
     for _ in range(count(tier, 40, 400)):
         row = [rng.randrange(0xC2, 0xE0) - KEY_OFFSET, rng.randrange(0x80, 0xC0) - KEY_OFFSET]
@@ -467,12 +479,13 @@ def gen_text(tier, rng):
         yield {"exponents": rows, "shape": rng.choice([[], [1], [3]]), "via": rng.choice(["bytesio", "bytesio", "binary_file", "stringio", "path"])}
 
 
-def save_and_load(numpoly, p, via, tmp):
+def save_and_load(numpoly, p, via, tmp, encoding=None):
     path = os.path.join(tmp, "p.txt")
     if via in ("path", "pathlib"):
         path = pathlib.Path(path) if via == "pathlib" else path
-        numpoly.savetxt(path, p)
-        return numpoly.loadtxt(path)
+        kw = {} if encoding is None else {"encoding": encoding}
+        numpoly.savetxt(path, p, **kw)
+        return numpoly.loadtxt(path, **kw)
     if via in ("text_file", "binary_file"):
         b = "b" if via == "binary_file" else ""
         with open(path, "w" + b) as dst:
@@ -489,7 +502,8 @@ def save_and_load(numpoly, p, via, tmp):
        note="bounded: every exponent 0..1299 (quick 0..299), the boundary list and random exponents < 10**5 as a two-term 1-/2-d array, plus "
             "random 2-4-term arrays in 1-3 indeterminates, plus single-term arrays (0-d, 1-d, 2-d) for every exponent 69..196 and 11 others, "
             "plus 40 (400) rows in 2-3 indeterminates whose key bytes form one valid UTF-8 sequence; through a path, pathlib.Path, text and "
-            "binary file objects, io.StringIO and io.BytesIO (all 6 in thorough, 3 per exponent in quick); savetxt then loadtxt: any "
+            "binary file objects, io.StringIO and io.BytesIO (all 6 in thorough, 3 per exponent in quick), and paths with encoding= latin1 / utf-8 / "
+            "ascii / utf-16 given to both calls; savetxt then loadtxt: any "
             "exception is accepted (C13 covers the format), but a loaded polynomial must consist of exactly the saved monomials with their coefficients")
 def text_roundtrip(inp):
     import numpoly
@@ -504,7 +518,7 @@ def text_roundtrip(inp):
     with tempfile.TemporaryDirectory() as tmp:
         try:
             p = numpoly.polynomial_from_attributes(rows, coefs, names, retain_coefficients=True, retain_names=True)
-            r = save_and_load(numpoly, p, inp.get("via", "path"), tmp)
+            r = save_and_load(numpoly, p, inp.get("via", "path"), tmp, inp.get("encoding"))
         except Timeout:
             raise
         except Exception:
@@ -513,5 +527,5 @@ def text_roundtrip(inp):
         return f"loadtxt returned {type(r).__name__} for a saved polynomial with exponents {rows}"
     got = from_ndpoly(r)
     if got.shape != want.shape or not same(got, want):
-        return f"saved {describe(want)} (exponents {rows}) via {inp.get('via', 'path')}, loaded {describe(got)} (exponents {r.exponents.tolist()})"
+        return f"saved {describe(want)} (exponents {rows}) via {inp.get('via', 'path')} encoding {inp.get('encoding')}, loaded {describe(got)} (exponents {r.exponents.tolist()})"
     return None
